@@ -16,12 +16,13 @@ RULE = ("per class: uniform ACGT strings (length 1..80), strings over the 15-let
         "(1..6), own structure instances, other classes' instances, every-position single-letter corruptions of an instance (5 "
         "replacement letters incl. N and lower case; thorough: all positions), fully lower-cased instances, instances with an extra "
         "site; assemblies of 1..4 records drawn from pools of valid and invalid records of the same kit; complete chains of 1..6 modules with "
-        "each link in turn taken away or replaced by a non-module. "
+        "each link in turn taken away or replaced by a non-module, chains whose last link leads back into the chain (a closed loop), complete chains "
+        "supplied together with 6..9 uninvolved modules, each under the warning filters ignore / error / always. "
         "Non-trivial = is_valid returned False and all extraction methods were then exercised, or an assembly mixing valid and invalid "
         "records was run; distinct = distinct (class, sequence).")
 ASSUMPTIONS = ["records are CircularRecords over Seq, length >= 1, letters from the IUPAC alphabet in either case",
                "a documented MoClo exception whose str()/repr() itself raises counts as an internal error (it surfaces when the failure is logged)"]
-FLOORS = {"c17_is_valid_calls": 5000, "c17_invalid_entities_probed": 1500, "c17_assemblies": 300, "c17_assemblies_failed": 100, "c17_assemblies_succeeded": 30, "c17_broken_chain_assemblies": 400}
+FLOORS = {"c17_is_valid_calls": 5000, "c17_invalid_entities_probed": 1500, "c17_assemblies": 300, "c17_assemblies_failed": 100, "c17_assemblies_succeeded": 30, "c17_broken_chain_assemblies": 400, "c17_loop_assemblies": 100, "c17_library_assemblies": 30}
 MUST_REACH = ["StructuredRecord.is_valid", "AbstractVector.assemble"]
 BUDGET_S = {"quick": 900, "thorough": 7200}
 IUP = "ACGTRYSWKMBDHVN"
@@ -124,6 +125,9 @@ def worker_init(ctx, tier):
             ctx.hist("assemble_error", "product")
 
     wrap_method(AbstractVector, "assemble", post_assemble)
+    # "ends": a chain walk that stops consuming modules is aborted on logical steps (an exception the library cannot swallow)
+    from .. import asmmon
+    asmmon.install_walk_guard(ctx)
 
 
 def _entity(cls, text):
@@ -213,6 +217,7 @@ def execute(mat, ctx):
         ctx.sample({"kind": "corruptions", "class": mat["cls"], "instance": s}, cap=1)
         return
     if kind == "broken-chains":
+        from .. import asmmon
         # complete chains of 1..6 modules from which one link is taken away (first, middle or last), or in which one link is
         # replaced by a record that is not a module at all: every such call must end with a documented MoClo error
         import warnings
@@ -239,6 +244,40 @@ def execute(mat, ctx):
                             _entity(V, vt).assemble(*[_entity(M, t) for t in rest])       # judged by the monitor
                             ctx.count("c17_assemblies_succeeded")
                         except Exception:
+                            pass
+            # the chain runs into a closed loop of overhangs that never reaches the vector's upstream overhang (the last link
+            # leads back to an earlier junction), and: a complete chain handed over together with a whole library of 6..9
+            # valid modules that take no part in it
+            geom = refmodel.geometry(gen.enzyme(ename))
+            ovs = amat["overhangs"]
+            chain_texts = [mts[i] for i in amat["chain"]]        # module texts in chain order
+            scenarios = []
+            try:
+                back = rng.randrange(len(chain_texts))            # the loop closes on the start overhang of this link
+                loop = gen.build_module(rng, geom, ovs[len(chain_texts) - 1], ovs[back], rng.randint(2, 12), rng.randint(0, 10))["seq"]
+                scenarios.append(("loop", chain_texts[:-1] + [loop]))
+                spare = []
+                for o in gen.gen_overhangs(rng, geom[2], 2 * rng.randint(6, 9), forbid=(geom[0], rc(geom[0]))):
+                    spare.append(o)
+                used = set(ovs) | {rc(o) for o in ovs}
+                spare = [o for o in spare if o not in used]
+                lib = [gen.build_module(rng, geom, spare[2 * q], spare[2 * q + 1], rng.randint(2, 12), rng.randint(0, 10))["seq"] for q in range(len(spare) // 2)]
+                if len(lib) >= 6:
+                    scenarios.append(("library", chain_texts + lib))
+            except RuntimeError:
+                pass
+            for what, texts in scenarios:
+                order = list(texts)
+                rng.shuffle(order)
+                for filt in ("ignore", "error", "always"):
+                    ctx.count("evaluations")
+                    ctx.count("c17_%s_assemblies" % what)
+                    with warnings.catch_warnings(record=True):
+                        warnings.simplefilter(filt)
+                        try:
+                            _entity(V, vt).assemble(*[_entity(M, t) for t in order])       # judged by the monitor
+                            ctx.count("c17_assemblies_succeeded")
+                        except (Exception, asmmon.RunawayWalk):
                             pass
             ctx.nontrivial(["broken-chain", ename, vt, mts])
         ctx.sample({"kind": kind, "from": mat["from"]}, cap=1)
